@@ -205,12 +205,13 @@ fn exec(op: &Op) -> String {
             // program: bytes; a stack machine: b'0'+i pushes candidate i, b'm' pops two and
             // pushes best_match (None-aware: best of None and x is x if x matches else None).
             let Some(p) = a(0) else { return "BAD-UTF8".into() };
-            let Ok(pat) = Pattern::new(p) else { return "err".into() };
-            let prog = &op.args[1];
+            // protocol-level rejects first (same order as the Lean driver decodes its arguments)
             let cands: Vec<&str> = match (2..op.args.len()).map(|i| a(i)).collect::<Option<Vec<_>>>() {
                 Some(c) => c,
                 None => return "BAD-UTF8".into(),
             };
+            let Ok(pat) = Pattern::new(p) else { return "err".into() };
+            let prog = &op.args[1];
             let mut st: Vec<Option<&str>> = vec![];
             for &c in prog {
                 if c == b'm' {
